@@ -23,7 +23,7 @@ def setup():
 def run_property(prop, tier):
     from . import props
     t0 = time.time()
-    spec = props.PROPS.get(prop)
+    spec = props.PROPS.get(prop) or getattr(props, "PENDING", {}).get(prop)
     if spec is None:
         print("unknown or unclaimed property %s" % prop)
         return 2
